@@ -24,6 +24,9 @@ readers make into the standard library.  Validated against CPython by `py2lean_c
   (everything from `pos` for a negative `n`, nothing beyond the end), `seekSet? p` = the position after
   `f.seek(p)` / `f.seek(p, os.SEEK_SET)` (ValueError for a negative `p`), `f.seek(0, os.SEEK_END)` = the length,
   `f.tell()` = the position.
+* text mode of `reverse_iter_lines` (round 3f; `encoding` declared to be the codec name 'utf-8'): `decodeUtf8? b` =
+  `b.decode('utf-8')` - the strict UTF-8 codec (`utf8Decode`: shortest form only, no surrogates, at most U+10FFFF) giving
+  the text as the list of its characters, or UnicodeDecodeError - a ValueError, the class `PyExc` has - where CPython raises.
 -/
 namespace PyRtC19
 
@@ -109,5 +112,45 @@ def fileRead {β : Type} (data : List β) (pos n : Int) : List β :=
 /-- the position after `f.seek(p)` -/
 def seekSet? (p : Int) : Except PyExc Int :=
   if p < 0 then .error PyExc.ValueError else .ok p
+
+/-! ### text mode: `line.decode('utf-8')` -/
+
+/-- a UTF-8 continuation byte -/
+def isCont (b : Nat) : Bool := 128 ≤ b && b ≤ 191
+
+/-- `bytes.decode('utf-8')` (the strict codec) on byte values: the code points, or `none` where the codec raises
+    UnicodeDecodeError (a byte that starts no sequence, a truncated or over-long sequence, a surrogate, a value above
+    U+10FFFF) -/
+def utf8Decode : List Nat → Option (List Nat)
+  | [] => some []
+  | b :: rest =>
+    if b < 128 then (utf8Decode rest).map (b :: ·)
+    else if 194 ≤ b && b ≤ 223 then
+      match rest with
+      | c1 :: r =>
+        if isCont c1 then (utf8Decode r).map (((b - 192) * 64 + (c1 - 128)) :: ·) else none
+      | _ => none
+    else if 224 ≤ b && b ≤ 239 then
+      match rest with
+      | c1 :: c2 :: r =>
+        if isCont c1 && isCont c2 && (b != 224 || 160 ≤ c1) && (b != 237 || c1 ≤ 159) then
+          (utf8Decode r).map (((b - 224) * 4096 + (c1 - 128) * 64 + (c2 - 128)) :: ·)
+        else none
+      | _ => none
+    else if 240 ≤ b && b ≤ 244 then
+      match rest with
+      | c1 :: c2 :: c3 :: r =>
+        if isCont c1 && isCont c2 && isCont c3 && (b != 240 || 144 ≤ c1) && (b != 244 || c1 ≤ 143) then
+          (utf8Decode r).map (((b - 240) * 262144 + (c1 - 128) * 4096 + (c2 - 128) * 64 + (c3 - 128)) :: ·)
+        else none
+      | _ => none
+    else none
+
+/-- `b.decode(encoding)`, `encoding` the declared codec 'utf-8': the text (a `str` is the list of its characters), or
+    UnicodeDecodeError (a subclass of ValueError) -/
+def decodeUtf8? {β : Type} [Byte β] (b : List β) : Except PyExc (List Char) :=
+  match utf8Decode (b.map Byte.val) with
+  | some cps => .ok (cps.map Char.ofNat)
+  | none => .error PyExc.ValueError
 
 end PyRtC19
